@@ -201,14 +201,10 @@ def toggled_envs():
     return [a, Late()]
 
 
-def narrow_env():
+def narrow_env(lo=-10, hi=10):
     import jsonpath
 
-    class Narrow(jsonpath.JSONPathEnvironment):
-        max_int_index = 10
-        min_int_index = -10
-
-    return Narrow()
+    return type("Narrow", (jsonpath.JSONPathEnvironment,), {"max_int_index": hi, "min_int_index": lo})()
 
 
 def mutate(r, expr, items):
@@ -296,12 +292,14 @@ def run(spec, ctx):
     elif kind == "syntactic":
         mx, mn = (2 ** 53) - 1, -(2 ** 53) + 1
         nenv = narrow_env()
-        for e, lo, hi, cls in ((env, mn, mx, "default"), (nenv, -10, 10, "narrow")):
+        asym = [(0, mx), (-5, 1000), (0, 100), (-1000, 10), (-7, 100), (-9, 999), (1, 5), (-3, 7), (-(10 ** 20), 10 ** 20), (0, 0), (-1, 10 ** 6)]
+        for e, lo, hi, cls in [(env, mn, mx, "default"), (nenv, -10, 10, "narrow")] + [(narrow_env(lo_, hi_), lo_, hi_, "narrow") for lo_, hi_ in asym]:
             # values as digit strings: thousands of digits are beyond what int() / str() convert (4300 by default)
-            long_ones = [(sign + d * n, False) for sign in ("", "-") for d in ("1", "9") for n in (20, 400, 4300, 4301, 6001)]
-            for v, ok in [(str(x), ok) for x, ok in ((hi, True), (hi - 1, True), (hi + 1, False), (lo, True), (lo + 1, True), (lo - 1, False), (hi * 10, False), (lo * 10, False), (0, True), (-1, True), (2 ** 63, False), (-2 ** 63 - 1, False), (10 ** 30, False))] + long_ones:
-                forms = ["$[%s]" % v, "$.a[%s]" % v, "$..[%s]" % v, "$[0,%s]" % v, "$[%s:]" % v, "$[:%s]" % v, "$[::%s]" % v, "$[1:%s:2]" % v,
-                         "$[?@[%s]]" % v, "$[?@.a[%s] == 1]" % v, "$[?count(@[%s:]) > 0]" % v, "$[ %s ]" % v, "$[1, %s:2]" % v, "$[?count(@[0, %s]) > 0]" % v]
+            long_ones = [(sign + d * n, (lo <= int(sign + d * n) <= hi) if n < 4300 else False) for sign in ("", "-") for d in ("1", "9") for n in (20, 400, 4300, 4301, 6001)]
+            for v, ok in [(str(x), lo <= x <= hi) for x in (hi, hi - 1, hi + 1, lo, lo + 1, lo - 1, hi * 10 + 10, lo * 10 - 10, 0, -1, 1, -2, 7, -30, 2 ** 63, -2 ** 63 - 1, 10 ** 30)] + long_ones:
+                a0, a1, a2 = (max(lo, min(hi, k)) for k in (0, 1, 2))   # companions that are inside the limits themselves
+                forms = ["$[%s]" % v, "$.a[%s]" % v, "$..[%s]" % v, "$[%d,%s]" % (a0, v), "$[%s:]" % v, "$[:%s]" % v, "$[::%s]" % v, "$[%d:%s:%d]" % (a1, v, a2),
+                         "$[?@[%s]]" % v, "$[?@.a[%s] == 1]" % v, "$[?count(@[%s:]) > 0]" % v, "$[ %s ]" % v, "$[%d, %s:%d]" % (a1, v, a2), "$[?count(@[%d, %s]) > 0]" % (a0, v)]
                 for text in forms:
                     compile_case(ctx, e, text, ok, "%s:int-range" % cls, "index-or-slice-out-of-range")
                     ctx.cell("int_range", "%s %s %s" % (cls, "inside" if ok else "outside", "slice" if ":" in text else "index"))
